@@ -642,3 +642,22 @@ def sp_snapshot(ex, args, kwargs, node):
     if isinstance(a, Arr):
         return Arr(a.term, list(a.shape), a.kind, name=a.name + "@snap", ghost=dict(a.ghost))
     return a
+
+
+@spec("has_corner")
+def sp_has_corner(ex, args, kwargs, node):
+    """has_corner(F, f, n): row f of the 2-D table F contains the value n  (definition: exists j < width. F[f, j] == n).
+    Rendered as an uninterpreted predicate with a witness function so that no existential sits inside invariants."""
+    F, f, n = args
+    key = "_corner_pred"
+    if F.ghost.get(key) is None or F.ghost.get(key + "_term") is not F._term:
+        C = z3.Function(fresh_name("has_corner"), V.INT, V.INT, V.BOOL)
+        wj = z3.Function(fresh_name("corner_pos"), V.INT, V.INT, V.INT)
+        ff, jj, nn = z3.Int(fresh_name("f")), z3.Int(fresh_name("j")), z3.Int(fresh_name("n"))
+        W = to_z3(F.shape[1], "int")
+        ex.ctx.global_axioms.append(z3.ForAll([ff, jj], z3.Implies(z3.And(jj >= 0, jj < W), C(ff, F.sel(ff, jj))), patterns=[F.sel(ff, jj)]))
+        ex.ctx.global_axioms.append(z3.ForAll([ff, nn], z3.Implies(C(ff, nn), z3.And(wj(ff, nn) >= 0, wj(ff, nn) < W, F.sel(ff, wj(ff, nn)) == nn)),
+                                              patterns=[C(ff, nn)]))
+        F.ghost[key] = C
+        F.ghost[key + "_term"] = F._term
+    return F.ghost[key](to_z3(f, "int"), to_z3(n, "int"))
